@@ -38,7 +38,8 @@ for m in sorted(os.listdir(os.path.join(V, 'seeded'))):
         outcome = 'not-reported'
     meta = {'property': pid, 'title': title, 'round': {1: 1, 2: 1, 3: 2, 4: 2, 5: 2, 6: 3, 7: 3}.get(int(m.split('-')[1]), 4), 'needs_to_manifest': needs,
             'what_i_ran': ['tools/demo_mutant.sh /verif/seeded/%s   # HEAD+patch in a scratch worktree: 39/39 tests pass; demonstration.sh exits non-zero (property violated)' % m,
-                           'tools/try_patch.sh /verif/seeded/%s/patch.diff -- %s   # git -C /repo apply; ./check %s --tier quick; git -C /repo checkout -- .' % (m, pid, pid)],
+                           'tools/run_mutants_snap.sh %s (under `vp run --with-repo`: patch applied to the run\'s snapshot of /repo, ./check %s --tier quick with VERIF_REPO pointing at it, patch removed) '
+                           'or, for changes re-checked by hand after a generator was strengthened (seeded/manual_results.txt), the same with a scratch worktree of /repo; earlier sessions: tools/try_patch.sh (git -C /repo apply; check; git -C /repo checkout -- .)' % (m, pid)],
             'check_outcome': outcome, 'first_report': first[:300], 'note': HARMLESS.get(m, '')}
     json.dump(meta, open(os.path.join(d, 'meta.json'), 'w'), indent=1)
     rows.append((m, title, outcome, first))
